@@ -34,7 +34,7 @@ fn inside_h(model: &mut Model, rule: &str, sexp: &str) -> bool {
     match model.ask(&format!("c16.h {} {}", hex(rule.as_bytes()), sexp)).as_str() {
         "true" => true,
         "false" => false,
-        other => panic!("c16.h answered {}", other),
+        other => { eprintln!("c16.h answered {:?} for rule {}", other, rule); panic!("c16.h answered {}", other) }
     }
 }
 
@@ -253,6 +253,28 @@ fn check_mentions(model: &mut Model, r: &mut Report, rng: &mut Rng, code: &str) 
     }
 }
 
+/// The shared generator can produce `b = (b .. 5) .. (b .. i)` inside nested loops: the string doubles at
+/// every iteration and the reference run needs exponential memory. Such programs are skipped (counted).
+fn doubles_a_string(code: &str) -> bool {
+    for line in code.lines() {
+        let line = line.trim();
+        if let Some(eq) = line.find(" = ") {
+            let target = &line[..eq];
+            let rhs = &line[eq + 3..];
+            if !target.is_empty() && target.chars().all(|c| c.is_ascii_alphanumeric() || c == '_') && rhs.contains("..") {
+                let occurrences = rhs
+                    .split(|c: char| !(c.is_ascii_alphanumeric() || c == '_'))
+                    .filter(|w| *w == target)
+                    .count();
+                if occurrences >= 2 {
+                    return true;
+                }
+            }
+        }
+    }
+    false
+}
+
 fn lua_number(x: f64) -> String {
     if x.is_infinite() {
         if x > 0.0 { "(1/0)".to_owned() } else { "(-(1/0))".to_owned() }
@@ -389,7 +411,7 @@ pub fn run(report: &mut Report, replay: Option<&str>) {
     let programs_per_thread: usize = std::env::var("C16_PROGRAMS")
         .ok()
         .and_then(|v| v.parse().ok())
-        .unwrap_or(if thorough { 5000 } else { 450 });
+        .unwrap_or(if thorough { 3000 } else { 450 });
     let threads = 12;
     report.parallel(threads, |tid, r| {
         let mut model = Model::spawn();
@@ -417,6 +439,14 @@ pub fn run(report: &mut Report, replay: Option<&str>) {
                 }
             };
             r.hist("program_source", source);
+            if doubles_a_string(&code) {
+                r.count("skipped_program_doubling_a_string_in_a_loop", 1);
+                continue;
+            }
+            if let Ok(dir) = std::env::var("C16_TRACE_DIR") {
+                // development aid: the program each thread is working on
+                let _ = std::fs::write(format!("{}/cur-{}.lua", dir, tid), &code);
+            }
             let mut inside_all = Vec::new();
             for rule in RULES.iter() {
                 // a systematic break: stop shrinking the same failure over and over
